@@ -1,6 +1,6 @@
 from flamapy.core.transformations import ModelToText
 
-from flamapy.core.models.ast import Node
+from flamapy.core.models.ast import Node, ASTOperation
 from flamapy.metamodels.fm_metamodel.models import (
     Feature,
     FeatureModel,
@@ -10,6 +10,9 @@ from flamapy.metamodels.fm_metamodel.models import (
 
 
 class AFMWriter(ModelToText):
+
+    # Operators whose AFM keyword differs from the name of the AST operation
+    AFM_OPERATORS = {ASTOperation.EQUIVALENCE: 'IFF'}
 
     @staticmethod
     def get_destination_extension() -> str:
@@ -125,7 +128,7 @@ class AFMWriter(ModelToText):
 
         data = node.data
         if node.is_op():
-            data = data.value.upper()
+            data = AFMWriter.AFM_OPERATORS.get(data, data.value.upper())
 
         if node.left and node.right:
             result = self.recursive_constraint_read(
